@@ -26,6 +26,8 @@ mod p13;
 mod p14;
 mod p15;
 mod p16;
+mod p17;
+mod p18;
 mod pkt;
 mod refval;
 
@@ -48,6 +50,8 @@ fn make(id: &str, tier: Tier) -> Option<Box<dyn Property>> {
         "C12" => Box::new(p12::P12::new(tier)),
         "C15" => Box::new(p15::P15::new(tier)),
         "C16" => Box::new(p16::P16::new(tier)),
+        "C17" => Box::new(p17::P17::new(tier)),
+        "C18" => Box::new(p18::P18::new(tier)),
         "C09" => Box::new(p09::P09::new(tier)),
         _ => return None,
     })
